@@ -43,7 +43,7 @@ CHECKS = {
         "technique": "solver-based bounded model checking (Kani/CBMC SAT) of the compiled /repo code against a spec transcription",
     },
     "C09": {
-        "text": "SimpleGlyph point decoding (flags with REPEAT, short/same/long deltas, wrapping accumulation) vs the glyf spec on symbolic glyphs of <= 3 points; points() and read_points_fast agree; totality on arbitrary bytes.",
+        "text": "SimpleGlyph point decoding (flags with REPEAT, short/same/long deltas, wrapping accumulation) vs the glyf spec on symbolic glyphs of <= 2 points, for the points() iterator and (for the flag encodings the writer emits) for read_points_fast; totality of both on arbitrary bytes (read_points_fast: 3 points); writer kernels compute_point_deltas / RepeatableFlag / loca format vs the spec.",
         "design_ref": "DESIGN.md §3 C09",
         "note": "Reader half only; the glyf writer (SimpleGlyph FontWrite, GlyfLocaBuilder, composite writing, loca format choice) is outside the claim.",
         "technique": "solver-based bounded model checking (Kani/CBMC SAT) of the compiled /repo code against a spec transcription",
